@@ -88,6 +88,21 @@ func verifAllocLimit(n int64) {}
 
 func verifIsSymbolic() bool { return false }
 
+// verifThorough reports whether the check runs in the thorough tier (harnesses
+// use it to widen their stated bounds).
+func verifThorough() bool { return verifNS.tbl["__thorough"] != 0 }
+
+// Non-branching boolean connectives (the engine builds one term instead of
+// forking as Go's && / || do).
+func verifAnd(a, b bool) bool { return a && b }
+func verifOr(a, b bool) bool  { return a || b }
+func verifIteU16(c bool, a, b uint16) uint16 {
+	if c {
+		return a
+	}
+	return b
+}
+
 func verifConcretize(x int) int { return x }
 
 func verifChanClosed(ch any) bool {
